@@ -66,8 +66,8 @@ end
 
 /-- The page object demanded for a leaf: `PDFPage` built from own-or-inherited attributes. -/
 def specPage (g : Store) (p : Nat × List Dict) : Except Err Page :=
-  mkPage g p.1 (inherited p.2 "Resources") (inherited p.2 "MediaBox") (inherited p.2 "CropBox")
-    (inherited p.2 "Rotate")
+  .ok (mkPage g p.1 (inherited p.2 "Resources") (inherited p.2 "MediaBox") (inherited p.2 "CropBox")
+    (inherited p.2 "Rotate"))
 
 /-- All pages of a tree. -/
 def specPages (g : Store) (t : PTree) : List Page × Option Err :=
